@@ -300,15 +300,75 @@ def evaluate(res, sim, host, model, questions, legacy, is_probe, now, sighting, 
             "ucastdeliv" if qdesc["unicast_delivery"] else "mcastdeliv", "u%d" % min(len(want_u), 2), "m%d" % min(len(want_m), 2))
 
 
+def run_twins(res: Result, seed: int) -> None:
+    """Two legacy resolvers (different address or port) send byte-identical queries within a second - same question, same
+    id, e.g. both use id 0.  'A query from a source port other than 5353 gets a unicast reply to that address and port':
+    each of them is owed its own reply."""
+    rng = random.Random(seed)
+    res.evaluations += 1
+    layout = rng.choice(["single", "split"])
+    T = "_http._tcp.local."
+    s = Svc(T, "twin." + T, "twin-host.local.", 80, b"\x03a=1", [b"\x0a\x00\x00\x05"], [], 120, 4500)
+    gap = rng.choice([0.0, 1.0, 100.0, 500.0, 900.0, 1500.0])
+    qkind = rng.choice(["ptr", "srv", "a"])
+    qid = rng.choice([0, 0, 4660])
+    second = rng.choice(["other-address", "other-port"])
+    desc = {"twins": True, "gap": gap, "question": qkind, "id": qid, "second": second, "layout": layout}
+
+    def viol(kind: str, detail: str, **sig: Any) -> None:
+        res.violation("c11.unicast", kind, detail, dict(sig, family="twins", layout=layout), {"seed": seed, "twins": True, "scenario": desc})
+
+    with simnet.Sim(seed & 0xFFFF) as sim:
+        out: Dict[str, Any] = {}
+
+        async def main():
+            host = sim.net.add_host("H", "10.0.0.1", None, layout=layout)
+            azc = await sim.start_host(host)
+            zc = azc.zeroconf
+            t = await zc.async_register_service(R.make_info(s), cooperating_responders=True)
+            await t
+            await sim.sleep_ms(3000)
+            q = {"ptr": [(T, 12, False)], "srv": [(s.name, 33, False)], "a": [(s.server, 1, False)]}[qkind]
+            data = R.build_query(q, id_=qid)
+            a = sim.net.endpoint("10.0.0.61", 40001)
+            b = sim.net.endpoint("10.0.0.62", 40001) if second == "other-address" else sim.net.endpoint("10.0.0.61", 40002)
+            out["a"], out["b"] = a, b
+            out["mark"] = len(sim.net.trace)
+            sim.net.inject_now(host, data, (a.ip, a.port), sock=host.listen[0])
+            await sim.sleep_ms(gap)
+            sim.net.inject_now(host, data, (b.ip, b.port), sock=host.listen[0])
+            await sim.sleep_ms(1500)
+            await azc.async_close()
+        try:
+            sim.run(main())
+        except Exception as e:
+            viol("exception", "exception in twins scenario: %r\n%s" % (e, tb()), exc_type=type(e).__name__)
+            return
+        res.mon("c11.unicast")
+        res.mon("c11.unicast.twins")
+        for who in ("a", "b"):
+            ep = out[who]
+            got = [e for e in sim.net.trace[out["mark"]:] if not e["mcast"] and tuple(e["dst"]) == (ep.ip, ep.port)]
+            if not got:
+                viol("legacy_query_not_answered", "two legacy resolvers sent the same bytes %.0f ms apart (%s); the %s one (%s:%d) got no unicast reply" % (
+                    gap, second, "first" if who == "a" else "second", ep.ip, ep.port), which=who)
+        res.cls("twins", second, "gap=%d" % gap, qkind, layout)
+
+
 def run_shard(spec):
     res = Result()
     rng = rng_for("c11", spec["seed"], spec["shard"])
-    for _ in range(spec["per"]):
+    for i in range(spec["per"]):
         run_scenario(res, rng.randrange(1 << 30))
+        if i % 4 == 3:
+            run_twins(res, rng.randrange(1 << 30))
     return res
 
 
 def replay(blob):
     res = Result()
+    if blob.get("twins"):
+        run_twins(res, blob["seed"])
+        return res
     run_scenario(res, blob["seed"])
     return res
